@@ -87,6 +87,12 @@ register("C03", module="histchecks", fn="case_c03", replay="replay_c03", binarie
          rule="as C01; after every build an immediate second build of the unchanged tree must run zero commands, and every command that ran in an incremental build must belong to a target whose rendered definition, configuration, source bytes or dependency output contents (taken from the reference build of that state) changed since its command last ran; commands are observed through an action log written by every command outside the repository",
          assumptions=HIST_ASSUME + ["must-run is not asserted here (C01 decides that through outputs)"], components={"real": REAL_WHOLE, "stub": STUB_WHOLE})
 
+register("C32", module="histchecks", fn="case_c32", replay="replay_c32", binaries=("simplz",),
+         cases={"quick": 20, "thorough": 500}, budget={"quick": 280, "thorough": 3300}, level="fault_enumeration",
+         rule="history = generated repository, optional earlier successful build, 1-2 edits, then a victim `plz build` whose mutating filesystem operations are counted in an uncrashed dry run under the same seed; the build is then re-run from a restored copy of the pre-build state and killed with SIGKILL before FS operation n (8 sampled n per history in quick, EVERY n in thorough; files open for writing are cut to a PRNG prefix in 70% of crashes), plus a kill issued from inside a running build command after its first output; afterwards a normal build must exit 0 with outputs equal to a clean build, and a third build must run nothing; evaluations = simulated invocations; distinct_nontrivial = distinct (history, crash point) pairs whose crash actually fired and whose recovery was checked",
+         assumptions=["crash model = SIGKILL of the plz process: kernel state (page cache, xattrs, renames) survives, nothing deferred runs", "build commands are atomic steps of the simulation, so a crash lands between FS operations of plz itself or at the scripted point inside a command"] + HIST_ASSUME,
+         components={"real": REAL_WHOLE, "stub": STUB_WHOLE})
+
 
 def cmd_check(pid, tier):
     import framework
